@@ -361,6 +361,12 @@ def gen_scenario(rng, focus, client=None, variant=0):
         strategy = rng.choice(["udp", "tcp", "notcp"])
         pre = [(8 * i, "J" + rng.choice(JUNK)) for i in range(rng.choice([0, 0, 2, 4]))]
         fin = rng.choice(["resp", "resptc", "resptc"])
+        if variant % 6 == 2:
+            # an UNtruncated answer that fills the caller's buffer exactly (or is one octet shorter, or is
+            # clipped by the receive call): it is an answer like any other — no TCP connection
+            strategy = rng.choice(["udp", "udp", "notcp"])
+            blen = len(response_bytes(name, qtype, 1))
+            fin = "big%d" % (buf - blen + rng.choice([0, 0, 0, -1, 9]))
         qs = [mk(udp=[pre + [(8 * len(pre) + 10, fin)]], tcp=(0, rng.choice(["full", "split:5:1.3.9", "trail:9"])))]
     elif focus == "tcpframe":
         strategy = "tcp"
@@ -389,6 +395,9 @@ def gen_scenario(rng, focus, client=None, variant=0):
         else:
             mode = "full"
         qs = [mk(tcp=(rng.choice([0, 0, 40]), mode))]
+        if variant % 8 == 3 and not mode.startswith("over") and not mode.startswith("pad"):
+            # caller buffers beyond 65535 octets: every announced length fits
+            buf = rng.choice([65536, 66000, 70000])
     elif focus == "xmodel":
         strategy = rng.choice(["udp", "udp", "notcp", "tcp"])
         qt, life = None, 600
@@ -437,6 +446,20 @@ def gen_scenario(rng, focus, client=None, variant=0):
         ]
         nm_, strategy, qt, udp_, tcp_ = pats[variant % len(pats)]
         qs = [mk(udp=udp_, tcp=tcp_)]
+    elif focus == "history" and variant % 5 == 1:
+        # the SAME question asked again on the same client / buffer: the later query first receives
+        # datagrams that carry its id but end before the question is complete (header only, clipped
+        # question, 11 octets, empty) — the bytes an earlier response left in the reused buffer
+        # behind them spell exactly the missing part, and must not be parsed as part of them
+        nm = rand_name(rng)
+        ty = rng.choice([1, 28, 16])
+        kinds = [rng.choice(["raw", "rr%d" % ty]) for _ in range(3)]
+        clip = lambda: [(6 + 5 * j, "J" + k) for j, k in enumerate(rng.sample(["hdronly", "truncq", "hdr11", "short", "empty"], rng.choice([1, 2, 3])))]
+        qs = [mk(kind=kinds[0], name=nm, qtype=ty, udp=[[(15, "resp")]]),
+              mk(kind=kinds[1], name=nm, qtype=ty, udp=[clip() + [(40, "resp")]]),
+              mk(kind=kinds[2], name=nm, qtype=ty, udp=[clip()] if rng.random() < 0.4 else [clip() + [(40, "resp")]])]
+        qt, life = 250, 600
+        buf = rng.choice([512, 1232])
     elif focus == "history" and rng.random() < 0.25:
         # a longer response first, then a shorter one that announces more records than it carries:
         # stale bytes of the first must not be parsed as part of the second
